@@ -128,6 +128,8 @@ def c16(run):
     run.assumptions += [WRITER_MODEL_NOTE + " (destination failing at write 1..2; invariant AfterFailNoWrites)",
                         "ReadFrom's return value after a destination failure is open; it must send nothing"]
     traces_check(run, b, "c16w", "TraceWsWriter")
+    run.assumptions += [READER_NOTE]
+    traces_check(run, b, "c16r", "TraceWsReader")
     return run.finish("fault_enumeration")
 
 
@@ -147,4 +149,41 @@ def c08(run):
     vlib.tlc_model(run, "CtlWriterImpl", workers=4)
     run.assumptions += ["control writer: limit 125 for must-fail; must-succeed only while the cumulative total stays within the documented capacity"]
     traces_check(run, b, "c08w", "TraceWsWriter")
+    return run.finish("model_checking")
+
+
+READER_NOTE = "WsReaderMon is a deterministic monitor over public-call events; `pulled` (bytes the reader took from the harness-owned transport) determines which frame headers were consumed; frame offsets come from the harness' own codec"
+
+
+@prop("C04")
+def c04(run):
+    b = run.build()
+    run.assumptions += [READER_NOTE, "how many bytes one Read returns is left open; NextReader drops intermediate control frames as documented"]
+    traces_check(run, b, "c04", "TraceWsReader")
+    return run.finish("model_checking")
+
+
+@prop("C05")
+def c05(run):
+    b = run.build()
+    run.assumptions += [READER_NOTE, "which of several broken rules is reported is left open; the oracle for 'first offending frame' is WsCheck!Broken folded over the fragmentation state (WsReaderMon!FirstOffending)"]
+    traces_check(run, b, "c05", "TraceWsReader")
+    return run.finish("model_checking")
+
+
+@prop("C07")
+def c07(run):
+    b = run.build()
+    vlib.tlc_model(run, "MCUtf8", workers=8)
+    run.assumptions += [READER_NOTE, "UTF-8 validity is decided by Utf8!WellFormed (RFC 3629 table), proved equal to the streaming automaton on all strings over 24 boundary bytes up to length 4 (MCUtf8)"]
+    records_check(run, b, "c07u", "C07Records")
+    traces_check(run, b, "c07", "TraceWsReader")
+    return run.finish("model_checking")
+
+
+@prop("C13")
+def c13(run):
+    b = run.build()
+    run.assumptions += [READER_NOTE]
+    traces_check(run, b, "c13r", "TraceWsReader")
     return run.finish("model_checking")
